@@ -122,6 +122,9 @@ pub proof fn lemma_witness<R: VxReadSeek, V, F: VxReadValueFn<R, V>>(f: F, data:
     ensures
         final(reader).data() == old(reader).data(),
         final(result)@.len() == old(result)@.len(),
+        // it fails only when an operation on the reader failed
+        /*@C09*/ ret is Err ==> final(reader).failed(),
+        old(reader).failed() ==> final(reader).failed(),
         // every read attempted by the search (successful or not) lies inside the table
         /*@C09*/ search_reads_ok::<Value>(old(reader).log(), final(reader).log(), read_start, num_entries),
         // the number returned is min(#entries with the key, |result|)
@@ -149,7 +152,7 @@ pub proof fn lemma_witness<R: VxReadSeek, V, F: VxReadValueFn<R, V>>(f: F, data:
 //@ loop 1
         invariant
             pair_size == psz, psz == size_of::<Value>() + 8, psz <= usize::MAX, n == num_entries, rs == read_start, n < 0x20_0000_0000_0000,
-            rs + n * psz <= u64::MAX, sorted(d0, rs, psz, n), reader.data() == d0, d0 == old(reader).data(),
+            rs + n * psz <= u64::MAX, sorted(d0, rs, psz, n), reader.data() == d0, d0 == old(reader).data(), old(reader).failed() ==> reader.failed(),
             result@.len() == old(result)@.len(),
             l0 == old(reader).log().len(), reader.log().len() >= l0, reader.log().subrange(0, l0) == old(reader).log(),
             log_within(reader.log(), l0, rs, rs + n * psz),
@@ -183,7 +186,7 @@ pub proof fn lemma_witness<R: VxReadSeek, V, F: VxReadValueFn<R, V>>(f: F, data:
                         reader.pos() == off(rs, psz, g),
                     invariant
                         pair_size == psz, psz == size_of::<Value>() + 8, psz <= usize::MAX, n == num_entries, rs == read_start,
-                        rs + n * psz <= u64::MAX, sorted(d0, rs, psz, n), reader.data() == d0, d0 == old(reader).data(),
+                        rs + n * psz <= u64::MAX, sorted(d0, rs, psz, n), reader.data() == d0, d0 == old(reader).data(), old(reader).failed() ==> reader.failed(),
                         result@.len() == old(result)@.len(),
                         l0 == old(reader).log().len(), reader.log().len() >= l0, reader.log().subrange(0, l0) == old(reader).log(),
                         log_within(reader.log(), l0, rs, rs + n * psz),
@@ -208,7 +211,7 @@ pub proof fn lemma_witness<R: VxReadSeek, V, F: VxReadValueFn<R, V>>(f: F, data:
 //@ loop 3
         invariant
             pair_size == psz, psz == size_of::<Value>() + 8, psz <= usize::MAX, n == num_entries, rs == read_start,
-            rs + n * psz <= u64::MAX, sorted(d0, rs, psz, n), reader.data() == d0, d0 == old(reader).data(),
+            rs + n * psz <= u64::MAX, sorted(d0, rs, psz, n), reader.data() == d0, d0 == old(reader).data(), old(reader).failed() ==> reader.failed(),
             result@.len() == old(result)@.len(),
             l0 == old(reader).log().len(), reader.log().len() >= l0, reader.log().subrange(0, l0) == old(reader).log(),
             log_within(reader.log(), l0, rs, rs + n * psz),
